@@ -236,6 +236,7 @@ def gen_history(
     hparam_rate: float = 0.1,
     style: dict | None = None,
     finite_only: bool = True,
+    poke_rate: float = 0.0,
 ) -> list[dict]:
     n = len(params)
     style = style or gen_presence_style(rng, n)
@@ -246,6 +247,10 @@ def gen_history(
     # bias interesting steps: a parameter disappearing exactly at the switch / a refresh
     res = [spec.effective_group_config(config, g.get("overrides", {})) for g in groups]
     while len(events) < n_events:
+        if events and poke_rate and rng.random() < poke_rate:
+            # the user rescales one parameter in place between two steps
+            events.append({"op": "poke", "param": rng.randrange(n), "scale": rng.choice([0.5, 0.9, 1.25, -1.0, 2.0])})
+            continue
         if events and rng.random() < hparam_rate:
             if len(groups) > 1 and rng.random() < 0.4:
                 # a learning-rate scheduler writes the same (or the same scaled) value into every group
@@ -305,7 +310,7 @@ def gen_single_trace(
     groups = gen_groups(rng, n_params, config)
     max_ev = 60 if tier == "thorough" else 24
     n_events = rng.choice([1, 2, 3, 4, 6, 8, 10, 12, 16, 20, max_ev])
-    events = gen_history(rng, params, groups, config, n_events)
+    events = gen_history(rng, params, groups, config, n_events, poke_rate=0.03)
     return {
         "schema": 1,
         "property": prop,
